@@ -399,7 +399,9 @@ def kind_of(spec_kind: str, enums: Dict[str, Dict[str, str]]):
         return ("leaf", opt, False, ev, "none")
     if head == "enumset":          # rendered as a dict of booleans; wire normal form = list of the true names
         return (["list", "leaf"], opt, False, ev, "emptyList")
-    if head in ("xtype", "cls"):
+    if head == "xtype":          # the announced names of the XSD value types (regenerated XSD_TYPE_NAMES)
+        return ("leaf", opt, True, sorted(XSD_NAMES.values()), "none")
+    if head == "cls":
         return ("leaf", opt, True, ev, "none")
     if head == "enum":
         table = {"KeyTypes": "KEY_TYPES", "ModellingKind": "MODELLING_KIND", "QualifierKind": "QUALIFIER_KIND",
@@ -412,15 +414,20 @@ def kind_of(spec_kind: str, enums: Dict[str, Dict[str, str]]):
         if arg == "Reference":
             return (["poly", REF_POLY], opt, True, ev, "none")
         return (["node", arg], opt, True, ev, "none")
-    if head in ("list", "set"):
+    if head in ("list", "list1", "set", "set1"):
         inner = kind_of(arg, enums)[0]
-        return (["list", inner], opt, False, ev, "none" if opt else "emptyList")
+        return (["list", inner], opt, head in ("list1", "set1"), ev, "none" if opt else "emptyList")
     if head in ("elems", "elems_ordered"):
         return (["list", ["poly", SME_POLY]], opt, False, ev, "emptyList")
     raise Unrecognised(f"spec kind {spec_kind}")
 
 
+XSD_NAMES: Dict[str, str] = {}
+
+
 def build(repo: str) -> Dict[str, Any]:
+    XSD_NAMES.clear()
+    XSD_NAMES.update(xsd_names(repo))
     enums = enum_tables(repo)
     graph = class_graph(repo)
     dispatch, per_method, special, unrec_w = writer_tables(repo)
@@ -512,7 +519,7 @@ def build(repo: str) -> Dict[str, Any]:
     all_classes = list(meta.META.keys()) + ["LangString", "ValueList", "OperationVariable"]
     helper_spec = {
         "LangString": [("language", "str"), ("text", "str")],
-        "ValueList": [("__items__", "set:node:ValueReferencePair")],
+        "ValueList": [("__items__", "set1:node:ValueReferencePair")],
         "OperationVariable": [("__self__", "node:SubmodelElement")],
     }
     for cls in all_classes:
